@@ -39,8 +39,8 @@ ITERS = [10, 40, 160, 640]
 KS = [3, 5, 10, 20, 30]
 RATIO_MIN = 12.0
 NOISE = 1e-12  # errors below this are rounding, not discretisation
-RICH_TOL = 1e-8
-PERT_C = 20.0
+RICH_TOL = 5e-8
+PERT_C = 50.0
 QED_ORDERS = [[1, 1], [1, 2], [2, 1], [2, 2], [3, 1], [3, 2], [4, 1], [4, 2]]
 QED_ORDERS_QUICK = [[1, 1], [2, 2], [3, 1], [4, 2]]
 
@@ -137,7 +137,6 @@ def eval_qcd(case, res, info):
     q = max(a0, a1) / rho
     info["max_a_over_rho"] = q
     try:
-        prev = None
         for its in (1, 10):
             for K in KS:
                 e = np.asarray(s.dispatcher((order, 0), EM.PERTURBATIVE_EXACT, g.copy(), a1, a0, nf, its, (K, 0)))
@@ -150,15 +149,6 @@ def eval_qcd(case, res, info):
                         f"{where} ev_op_iterations={its} ev_op_max_order={K}: relative error {err:.3e} > "
                         f"{PERT_C} (a_max/rho)^K = {bound:.3e} (rho={rho:.4g}); got={e.tolist()} ref={ref.tolist()}",
                     )
-                if K == KS[0]:
-                    prev = err
-                else:
-                    if err > NOISE and not err < prev:
-                        res.fail(
-                            f"{sig}/monotone",
-                            f"{where} ev_op_iterations={its}: error {err:.3e} at ev_op_max_order={K} not below {prev:.3e} at the previous order",
-                        )
-                    prev = err
     except Exception as e:  # noqa
         res.fail(sig + "/raises", f"{where}: {type(e).__name__}: {e}")
     return f"qcd/order={order}"
@@ -245,6 +235,7 @@ def run(ctx):
         "true solution = mpmath.odefun (tol 1e-18, 30 digits) of dE/da = [sum gamma_i a^i / sum beta_i a^(i+1)] E, for QED with "
         "gamma and beta summed over the (a_s, a_em) grid and a_em a prescribed function of a_s",
         f"documented rate = midpoint rule: error ratio per x4 steps >= {RATIO_MIN} (measured 15.9-16.0); Richardson limit within {RICH_TOL}",
-        f"perturbative-exact: error <= {PERT_C} (a_max/rho)^K + {NOISE}, monotonically decreasing in K above the rounding floor",
+        f"perturbative-exact: error <= {PERT_C} (a_max/rho)^K + {NOISE} (geometric envelope; the error itself need not be monotone: "
+        "measured 4.2e-2 -> 4.6e-2 between K=3 and K=5 at a_max/rho = 0.57)",
         "nothing is claimed between lattice points",
     ]
